@@ -154,7 +154,7 @@ func TestC02_Serializable(t *testing.T) {
 		if err != nil {
 			t.Fatalf("HARNESS-ERROR %v", err)
 		}
-		res, s := e.RunConcurrent(stores, progs, schedule, txh.ConcOpts{MaxTime: 10 * time.Second, Budget: 90 * time.Second})
+		res, s := e.RunConcurrent(stores, progs, schedule, txh.ConcOpts{GateCommits: knownSnapshot, MaxTime: 10 * time.Second, Budget: 90 * time.Second})
 		var sdesc []string
 		for i, st := range stores {
 			sdesc = append(sdesc, fmt.Sprintf("%s{slot=%d %s seed=%v}", st.Name, st.Slot, txh.PlacementNames[st.Placement], seed[i]))
@@ -163,6 +163,9 @@ func TestC02_Serializable(t *testing.T) {
 		if s.TimedOut {
 			rec.Discard()
 			return
+		}
+		if s.Gated > 0 {
+			rec.Exclude("a commit was held back until no other transaction was in the middle of its operations (known finding: inconsistent snapshot while others commit)")
 		}
 		final, err := e.Dump(stores, sop.ForReading)
 		if err != nil {
